@@ -414,6 +414,82 @@ theorem C14_source_colormaskCtor_src :
 
 end SourceTieD5
 
+/-! ### Capstones: (bridge) + (property) composed - the TRANSLATED colour-mask loop, paint colour, logo geometry and drawers
+themselves satisfy the property statements. -/
+section Capstone
+open QR.Gen QR.Gen.Code QR.SourceTieT QR.SourceTieD5
+
+/-- **capstone, `image/styles/colormasks.py:QRColorMask.apply_mask`** (translated loop nest `cm_apply_mask` with `interp_color`,
+    `extrap_color`; `fg x y` stands for `self.get_fg_pixel(image, x, y)`, a parameter): whenever the paint colour differs from the
+    background, a pixel that is exactly the background colour (light module, quiet zone) stays exactly the background, a pixel
+    that is exactly the paint colour (dark module of a square drawer) becomes exactly the foreground pixel, and pixels outside
+    `width × height` are untouched.  From `C14_source_applyMask_src`, `C14_light`, `C14_square_dark`. -/
+theorem C14_source_capstone_apply_mask (back paint : Colour) (fg : Nat → Nat → Colour) (width height : Nat)
+    (image : Nat → Nat → Colour) (hfg : ∀ x y, back.length ≤ (fg x y).length) (hl : back.length = paint.length)
+    (hne : paint ≠ back) (a b : Nat) :
+    (a < width → b < height → image a b = back → Code.cm_apply_mask back paint fg width height image a b = back) ∧
+    (a < width → b < height → back.length = (fg a b).length → image a b = paint →
+      Code.cm_apply_mask back paint fg width height image a b = fg a b) ∧
+    (¬(a < width ∧ b < height) → Code.cm_apply_mask back paint fg width height image a b = image a b) := by
+  rw [C14_source_applyMask_src back paint fg width height image hfg a b]
+  refine ⟨fun ha hb hi => ?_, fun ha hb hf hi => ?_, fun h => ?_⟩
+  · rw [if_pos ⟨ha, hb⟩, hi]; exact C14_light back paint (fg a b) hl (hfg a b) hne
+  · rw [if_pos ⟨ha, hb⟩, hi]; exact C14_square_dark back paint (fg a b) hl hf hne
+  · rw [if_neg h]
+
+/-- **capstone, `image/styledpil.py:StyledPilImage.__init__` (`self.paint_color`) + `colormasks.py:SolidFillColorMask.__init__`
+    (`has_transparency`)** (translated `spil_paint_color`, `spil_has_transparency_*`; the same holds for the other five mask
+    classes, whose translated `has_transparency` is the same expression): the paint colour equals the background exactly for
+    a black RGB background and for an RGBA background of alpha 255 (finding D4).
+    From `C14_source_paintColour_src`, `C14_paint_eq_back_iff`. -/
+theorem C14_source_capstone_paint_colour (r g b : Int) :
+    (spil_paint_color [r, g, b] (spil_has_transparency_SolidFillColorMask [r, g, b]) = [r, g, b] ↔ r = 0 ∧ g = 0 ∧ b = 0) ∧
+    (∀ a, spil_paint_color [r, g, b, a] (spil_has_transparency_SolidFillColorMask [r, g, b, a]) = [r, g, b, a] ↔ a = 255) := by
+  refine ⟨?_, fun a => ?_⟩
+  · rw [← (C14_source_paintColour_src [r, g, b]).1]; exact (C14_paint_eq_back_iff r g b).1
+  · rw [← (C14_source_paintColour_src [r, g, b, a]).1]; exact (C14_paint_eq_back_iff r g b).2 a
+
+/-- **capstone (the D4 defect at source level), `StyledPilImage.__init__` + `QRColorMask.apply_mask`** (both translated): with
+    an opaque RGBA background `(r, g, b, 255)` the translated paint colour is the background, and the translated `apply_mask`
+    turns EVERY pixel of the image - whatever was drawn - into background.
+    From `C14_source_applyMask_src`, `C14_source_paintColour_src`, `C14_paint_equals_back_blank`. -/
+theorem C14_source_capstone_blank_defect (r g b : Int) (fg : Nat → Nat → Colour) (width height : Nat)
+    (image : Nat → Nat → Colour) (hfg : ∀ x y, 4 ≤ (fg x y).length) (x y : Nat) (hx : x < width) (hy : y < height) :
+    Code.cm_apply_mask [r, g, b, 255]
+      (spil_paint_color [r, g, b, 255] (spil_has_transparency_SolidFillColorMask [r, g, b, 255])) fg width height image x y
+      = [r, g, b, 255] := by
+  rw [C14_source_applyMask_src [r, g, b, 255] _ fg width height image hfg x y, if_pos ⟨hx, hy⟩]
+  exact C14_paint_equals_back_blank _ _ _ _ (((C14_source_capstone_paint_colour r g b).2 255).2 rfl)
+
+/-- **capstone, `image/styledpil.py:StyledPilImage.draw_embeded_image`** (translated position / resize computation
+    `spil_logo_box_of`, `w = int(total_width * ratio) ≤ total_width`): the paste position is `(off, off)` with `off` a whole number
+    of modules, the logo `side × side` is centred (`off + side + off = total`), `w - 1 ≤ side ≤ w + 2·box - 1`, and a whole
+    number of modules wide when the image is.  From `C14_source_logoGeometry_src`, `C14_logo`. -/
+theorem C14_source_capstone_logo (total height box w : Nat) (hbox : 0 < box) (hw : w ≤ total) :
+    ∃ off side : Nat,
+      spil_logo_box_of (total : Int) (height : Int) (box : Int) (w : Int) = (((off : Int), (off : Int)), ((side : Int), (side : Int))) ∧
+      box ∣ off ∧ off * 2 + side = total ∧ w ≤ side + 1 ∧ side + 1 ≤ w + 2 * box ∧ (box ∣ total → box ∣ side) := by
+  have h := C14_logo total box w hbox hw
+  exact ⟨(logoGeometry total box w).1, (logoGeometry total box w).2,
+    C14_source_logoGeometry_src total height box w (Nat.div_le_div_right hw), h⟩
+
+/-- **capstone, `image/styles/moduledrawers/pil.py`: `drawrect` / `initialize` / `setup_*` of all six Pillow drawers**
+    (translated, assembled in `SourceTieD5.sourcePaints`; Pillow's `rectangle` / `paste` are recorded as painted rectangles):
+    every rectangle painted for a module lies inside that module's pixel box (box size ≥ 1, ratio in [0, 1]), and a light module
+    paints nothing.  `C14_drawer_inside_box` and `C14_drawer_light_nothing` are already statements about the translated code;
+    this is their conjunction under one set of hypotheses. -/
+theorem C14_source_capstone_drawers (d : Drawer) (bs : Int) (hbs : 1 ≤ bs) (ratio : Rat) (h0 : 0 ≤ ratio) (h1 : ratio ≤ 1)
+    (x y : Int) (a : dr_Active) :
+    (∀ p ∈ sourcePaints d bs ratio (moduleBox x y bs) a, p.2.inside (moduleBox x y bs)) ∧
+    (a.me = false → sourcePaints d bs ratio (moduleBox x y bs) a = []) :=
+  ⟨C14_drawer_inside_box d bs hbs ratio h0 h1 x y a, C14_drawer_light_nothing d bs (by omega) ratio x y a⟩
+
+/-- the translated computations evaluated: 33 modules of 10 px with ratio 1/4; paint colour on opaque white RGBA / white RGB -/
+example : spil_logo_box_of 330 330 10 82 = ((120, 120), (90, 90)) ∧
+    spil_paint_color [255, 255, 255, 255] (spil_has_transparency_SolidFillColorMask [255, 255, 255, 255]) = [255, 255, 255, 255] ∧
+    spil_paint_color [255, 255, 255] (spil_has_transparency_SolidFillColorMask [255, 255, 255]) = [0, 0, 0] := by decide
+end Capstone
+
 /-- the Python functions this property's model mirrors have, in /repo's current working tree, exactly the normalised
     ASTs the model was written and validated against (fingerprints regenerated by T1 on every run) -/
 theorem C14_source_fingerprints : QR.Gen.fp_C14 = QR.Pinned.fp_C14 := by decide
